@@ -61,7 +61,8 @@ Record state := mkState {
 Definition init : state := mkState [] 0 0 [] 0 [] 0 [] [] [] 0 [] 0 0 [].
 
 Inductive op :=
-| Vote (v : Z) (known : bool) (c : claim)  (* a *Claim message; [known]: the orchestrator address is a validator operator's *)
+| VoteBy (sg v : Z) (known : bool) (c : claim) (* a *Claim message created / signed by account [sg] that names validator [v] as orchestrator;
+                                              [known]: the named orchestrator address is a validator operator's *)
 | Tally                                    (* attestationTally *)
 | Prune                                    (* pruneAttestations *)
 | SetPowers (p : list (Z * Z)) (t : Z)     (* staking end-block changes powers *)
@@ -181,12 +182,17 @@ Definition batch_precheck (s : state) (c : claim) : bool :=
 
 (** Is the vote accepted in state [s]?  checkOrchestratorValidatorInSet: the orchestrator is the
     operator of a validator that has a staking record ([known]) whose status is Bonded. *)
-Definition vote_ok (s : state) (v : Z) (known : bool) (c : claim) : bool :=
-  known && (negb Gen.C02.vote_requires_bonded || mem v (bonded s)) && batch_precheck s c && valid_claim c && (c_nonce c =? u64 (val_last s v + 1))
+Definition creator_bound (k : Z) : bool :=
+  if k =? 0 then Gen.C02.creator_bound_deposit
+  else if k =? 1 then Gen.C02.creator_bound_batch
+  else if k =? 2 then Gen.C02.creator_bound_sale else true.
+
+Definition vote_ok (s : state) (sg v : Z) (known : bool) (c : claim) : bool :=
+  (negb (creator_bound (c_kind c)) || (sg =? v)) && known && (negb Gen.C02.vote_requires_bonded || mem v (bonded s)) && batch_precheck s c && valid_claim c && (c_nonce c =? u64 (val_last s v + 1))
   && (c_height (a_claim (vote_att s c)) =? c_height c).
 
-Definition vote (s : state) (v : Z) (known : bool) (c : claim) : state :=
-  if vote_ok s v known c then
+Definition vote (s : state) (sg v : Z) (known : bool) (c : claim) : state :=
+  if vote_ok s sg v known c then
     let a := vote_att s c in
     with_vnonce
       (with_atts s (set_att (atts s) (c_nonce c) (c_h c) (mkAtt (add_vote (a_votes a) v) (a_obs a) (a_claim a))))
@@ -310,7 +316,7 @@ Definition regenesis (s : state) : state :=
 
 Definition step (s : state) (o : op) : state :=
   match o with
-  | Vote v known c => vote s v known c
+  | VoteBy sg v known c => vote s sg v known c
   | Tally => fst (tally s)
   | Prune => prune s
   | SetPowers p t => with_powers s p t
@@ -328,9 +334,13 @@ Definition run (ops : list op) : state := fold_left step ops init.
 (** ** vocabulary of the theorems *)
 Definition power (p : list (Z * Z)) (vs : list Z) : Z := zsum (map (zget0 p) vs).
 
-(** Validator [v] submitted claim [c] and the vote was accepted, somewhere in [ops]. *)
+(** [Vote v known c]: the claim message was created and signed by validator [v]'s own account. *)
+Notation Vote v known c := (VoteBy v v known c).
+
+(** Validator [v] ITSELF submitted claim [c] (creator = signer = the named orchestrator) and the
+    vote was accepted, somewhere in [ops]. *)
 Definition accepted_vote (ops : list op) (v : Z) (c : claim) : Prop :=
-  exists o1 o2 known, ops = o1 ++ Vote v known c :: o2 /\ vote_ok (run o1) v known c = true.
+  exists o1 o2 known, ops = o1 ++ Vote v known c :: o2 /\ vote_ok (run o1) v v known c = true.
 
 Definition e_nonce (e : entry) : Z := c_nonce (e_claim e).
 Definition nonces_of_epoch (ep : Z) (l : list entry) : list Z :=
